@@ -337,7 +337,9 @@ def handle (j : Json) : Except String Json := do
       | none => (false, false, false)
     pure (Json.mkObj [("fresh", Json.bool (wfFresh ls)), ("disk", Json.bool (wfDisk ls)),
                       ("parses", Json.bool parses), ("items", Json.bool items), ("nodup", Json.bool nodup),
-                      ("gentag", Json.bool (ls.any hasGenTagFrom))])
+                      ("gentag", Json.bool (ls.any hasGenTagFrom)),
+                      ("nogentag", Json.bool (ls.all (fun l => !Engine.hasTag l))),
+                      ("tags", jStrs ((ls.map Engine.tagBodies).flatten))])
   | "script" => do
     let outdir ← getStr j "outdir"
     let cm ← asPairs (← j.getObjVal? "cm")
